@@ -36,6 +36,10 @@ pub trait World {
     fn wants_recycle(&self) -> bool {
         false
     }
+    /// hand the running server and the acting client over (C09-C11 continue with the dataset a history built)
+    fn take_server(&mut self) -> Option<(crate::srv::Srv, crate::srv::Client)> {
+        None
+    }
 }
 
 fn hist_of(v: &Value) -> Vec<usize> {
